@@ -2,6 +2,7 @@
 //! dedup all digests and logical paths, greatly reducing the memory used, and marginally increasing
 //! the deserialization speed.
 
+use std::borrow::Cow;
 use std::collections::hash_map::Entry;
 use std::collections::{BTreeMap, HashMap};
 use std::convert::TryFrom;
@@ -405,9 +406,9 @@ impl<'de: 'b, 'a, 'b> DeserializeSeed<'de> for ManifestSeed<'a, 'b> {
             {
                 let mut manifest = PathBiMap::with_capacity(map.size_hint().unwrap_or(0));
 
-                while let Some((digest, paths)) = map.next_entry::<&str, Vec<ContentPath>>()? {
+                while let Some((digest, paths)) = map.next_entry::<JsonStr, Vec<ContentPath>>()? {
                     let path_refs = paths.into_iter().map(Rc::new).collect();
-                    manifest.insert_multiple_rc(self.data.insert_digest(digest), path_refs);
+                    manifest.insert_multiple_rc(self.data.insert_digest(digest.0), path_refs);
                 }
 
                 Ok(manifest)
@@ -446,12 +447,12 @@ impl<'de: 'b, 'a, 'b> DeserializeSeed<'de> for StateSeed<'a, 'b> {
             {
                 let mut state = PathBiMap::with_capacity(map.size_hint().unwrap_or(0));
 
-                while let Some((digest, paths)) = map.next_entry::<&str, Vec<&str>>()? {
-                    let digest_ref = self.data.insert_digest(digest);
+                while let Some((digest, paths)) = map.next_entry::<JsonStr, Vec<JsonStr>>()? {
+                    let digest_ref = self.data.insert_digest(digest.0);
                     let mut path_refs = Vec::with_capacity(paths.len());
 
                     for path in paths {
-                        path_refs.push(self.data.insert_path(path)?);
+                        path_refs.push(self.data.insert_path(path.0)?);
                     }
 
                     state.insert_multiple_rc(digest_ref, path_refs);
@@ -465,10 +466,45 @@ impl<'de: 'b, 'a, 'b> DeserializeSeed<'de> for StateSeed<'a, 'b> {
     }
 }
 
+/// A JSON string that borrows from the input when it can and is copied only when the JSON
+/// text contains escape sequences. Deserializing `&str` fails for strings with escapes.
+struct JsonStr<'a>(Cow<'a, str>);
+
+impl<'de: 'a, 'a> Deserialize<'de> for JsonStr<'a> {
+    fn deserialize<D>(deserializer: D) -> Result<Self, D::Error>
+    where
+        D: Deserializer<'de>,
+    {
+        struct JsonStrVisitor;
+
+        impl<'de> Visitor<'de> for JsonStrVisitor {
+            type Value = JsonStr<'de>;
+
+            fn expecting(&self, formatter: &mut Formatter) -> std::fmt::Result {
+                formatter.write_str("a string")
+            }
+
+            fn visit_borrowed_str<E: SerdeError>(self, v: &'de str) -> Result<Self::Value, E> {
+                Ok(JsonStr(Cow::Borrowed(v)))
+            }
+
+            fn visit_str<E: SerdeError>(self, v: &str) -> Result<Self::Value, E> {
+                Ok(JsonStr(Cow::Owned(v.to_string())))
+            }
+
+            fn visit_string<E: SerdeError>(self, v: String) -> Result<Self::Value, E> {
+                Ok(JsonStr(Cow::Owned(v)))
+            }
+        }
+
+        deserializer.deserialize_str(JsonStrVisitor)
+    }
+}
+
 #[derive(Debug)]
 struct DigestsAndPaths<'a> {
-    digests: HashMap<&'a str, Rc<HexDigest>>,
-    paths: HashMap<&'a str, Rc<LogicalPath>>,
+    digests: HashMap<Cow<'a, str>, Rc<HexDigest>>,
+    paths: HashMap<Cow<'a, str>, Rc<LogicalPath>>,
 }
 
 impl<'a> DigestsAndPaths<'a> {
@@ -479,22 +515,25 @@ impl<'a> DigestsAndPaths<'a> {
         }
     }
 
-    fn insert_digest(&mut self, digest: &'a str) -> Rc<HexDigest> {
-        self.digests
-            .entry(digest)
-            .or_insert_with(|| Rc::new(digest.into()))
-            .clone()
+    fn insert_digest(&mut self, digest: Cow<'a, str>) -> Rc<HexDigest> {
+        match self.digests.entry(digest) {
+            Entry::Occupied(entry) => entry.get().clone(),
+            Entry::Vacant(vacant) => {
+                let digest_rc = Rc::new(HexDigest::from(vacant.key().as_ref()));
+                vacant.insert(digest_rc).clone()
+            }
+        }
     }
 
-    fn insert_path<E>(&mut self, path: &'a str) -> Result<Rc<LogicalPath>, E>
+    fn insert_path<E>(&mut self, path: Cow<'a, str>) -> Result<Rc<LogicalPath>, E>
     where
         E: SerdeError,
     {
         match self.paths.entry(path) {
             Entry::Occupied(entry) => Ok(entry.get().clone()),
             Entry::Vacant(vacant) => {
-                let path =
-                    LogicalPath::try_from(path).map_err(|e| SerdeError::custom(e.to_string()))?;
+                let path = LogicalPath::try_from(vacant.key().as_ref())
+                    .map_err(|e| SerdeError::custom(e.to_string()))?;
                 let path_rc = Rc::new(path);
                 let clone = path_rc.clone();
                 vacant.insert(path_rc);
